@@ -27,7 +27,10 @@ RULE = (
     "scenario = (W workers, consecutive play_many requests N1,N2 on ONE real MultiprocessSelfPlayEngine, fault script: "
     "factory:j raises | game:j:k the k-th game of worker j raises in analyze | killplay:j:k SIGKILL mid-game | "
     "killwait:j:r SIGKILL while idle before request r). One evaluation = one observed request (returned n / raised after ms / "
-    "still blocked T=10 s after max(call, workers ready, last fault)), plus one per stop()/teardown. The observed outcome "
+    "still blocked T=10 s after max(call, workers ready, last fault)), plus one per stop()/teardown — stop() is also called after a "
+    "request has RAISED (as play_many_games/the trainer do in finally) and must come back within the same bound; api=play_many_games "
+    "scenarios drive ONE call of the public entry point and bound the WHOLE call; backlog scenarios have N > 2W with an early fault "
+    "and fast or slow (1.2 s/ply) survivors, so cmd is still full when the failure is noticed. The observed outcome "
     "sequence must be in the set the Lean model admits under ALL interleavings (pool predict, failCode=1); transcripts are "
     "tagged worker/pid/seq/start-time to detect duplicates and carry-over. Non-trivial = a fault fired, or N > 2W (cmd queue "
     "full), or a second request on the same engine; distinct by scenario text + observed sequence."
@@ -107,10 +110,12 @@ def scenarios(ctx):
     rng = ctx.rng
     out = []
 
-    def add(W, reqs, faults=(), slow=0.0):
+    def add(W, reqs, faults=(), slow=0.0, api="play_many"):
         s = {"W": W, "requests": list(reqs), "faults": list(faults)}
         if slow:
             s["slow"] = slow
+        if api != "play_many":
+            s["api"] = api
         if canon(s) not in {canon(x) for x in out}:
             out.append(s)
 
@@ -131,6 +136,17 @@ def scenarios(ctx):
         add(2, [5], ["killplay:1:1"], slow=0.2)
         add(1, [1], ["killwait:0:1"])
         add(2, [2, 2], ["killwait:0:2"])
+        # backlog (N > 2W) with an early fault: `cmd` is still full when the failure is noticed
+        add(1, [8], ["game:0:1"])
+        add(2, [12], ["game:0:1"], slow=1.2)
+        # the public entry point: play_many_games = engine + play_many + finally stop(), as ONE call
+        pmg = "play_many_games"
+        add(2, [5], api=pmg)
+        add(1, [8], ["game:0:1"], api=pmg)
+        add(2, [12], ["game:0:1", "game:1:1"], api=pmg)
+        add(2, [12], ["game:1:1"], slow=1.2, api=pmg)
+        add(1, [5], ["factory:0"], api=pmg)
+        add(1, [8], ["killplay:0:1"], api=pmg)
     else:
         for W in (1, 2, 3, 4):
             for N in (1, 2, 3, 5, 8):
@@ -152,14 +168,26 @@ def scenarios(ctx):
                         add(W, [rng.choice([1, 2, 5]), 2], ["killwait:%d:%d" % (j, r)])
                 add(W, [5], ["game:%d:1" % j for j in js])
                 add(W, [8, 2], ["killwait:0:1", "game:%d:2" % (W - 1)])
+                # backlogs (N > 2W), early faults, fast and slow survivors; both entry points
+                big = 2 * W + rng.choice([2, 4, 6])
+                pmg = "play_many_games"
+                add(W, [big], api=pmg)
+                add(W, [big], ["game:%d:1" % j for j in js], api=rng.choice(["play_many", pmg]))
+                add(W, [big], ["factory:%d" % j for j in js], api=pmg)
+                for j in js:
+                    k = rng.choice([1, 1, 2])
+                    add(W, [big], ["game:%d:%d" % (j, k)], slow=1.2 if W > 1 else 0.0, api=pmg)
+                    add(W, [big], ["game:%d:%d" % (j, k)], slow=1.2 if W > 1 else 0.0)
+                    add(W, [big], ["killplay:%d:1" % j], slow=1.2 if W > 1 else 0.0, api=rng.choice(["play_many", pmg]))
     return out
 
 
 # ---------------------------------------------------------------- model side
 
 
-def predict_line(scn, failcode=1):
-    return "pool predict %d %d %s %s" % (
+def predict_line(scn, failcode=1, op=None):
+    return "pool %s %d %d %s %s" % (
+        op or ("predict-call" if scn.get("api") == "play_many_games" else "predict"),
         scn["W"],
         failcode,
         ",".join(str(n) for n in scn["requests"]),
@@ -167,8 +195,11 @@ def predict_line(scn, failcode=1):
     )
 
 
-def observed_seq(res):
+def observed_seq(res, detail=False):
+    """`raises` = the request raised and the stop() after it came back (returned or raised: both loud);
+    detail=True keeps which of the two (compared with `predict-stop`, for the evidence only)"""
     words = []
+    st = res.get("stop") or {}
     for o in res["requests"]:
         if o["outcome"] == "returned":
             w = "returns" if o["n"] == o["N"] else "returns(%d/%d)" % (o["n"], o["N"])
@@ -178,6 +209,10 @@ def observed_seq(res):
                 w += "+carried%d" % o["carried"]
         elif o["outcome"] == "raised":
             w = "raises"
+            if res.get("api", "play_many") == "play_many":  # what the stop() after the failure did
+                so = st.get("outcome", "blocked")
+                if so == "blocked" or detail:
+                    w += "/stop-" + {"returned": "returns", "raised": "raises", "blocked": "hangs"}[so]
         else:
             w = "hangs"
         words.append(w)
@@ -197,7 +232,8 @@ def verdict_lines(scn, res):
         meta.append(("request", o))
     st = res.get("stop")
     if st is not None:
-        lines.append("pool stopverdict %d %d" % (res["W"], st["exited"]))
+        after = "returned" if st["after"] == "returned" else "raised"
+        lines.append("pool stopverdict %d %d %s %s" % (res["W"], st["exited"], after, st.get("outcome", "returned")))
         meta.append(("stop", st))
     return lines, meta
 
@@ -215,7 +251,8 @@ def judge(scn, res):
         key = out.split(" ", 1)[1]
         if kind == "request":
             codes = o.get("exitcodes")
-            what = "W=%d requests=%s faults=%s: request %d (N=%d) %s" % (
+            what = "%sW=%d requests=%s faults=%s: request %d (N=%d) %s" % (
+                "play_many_games: " if scn.get("api") == "play_many_games" else "",
                 scn["W"],
                 scn["requests"],
                 scn["faults"] or "none",
@@ -229,16 +266,19 @@ def judge(scn, res):
                 }[o["outcome"]],
             )
             if o["outcome"] == "blocked" and codes:
-                bad = sorted({c for c in codes if c is not None})
+                bad = sorted({c for c in codes if c is not None and c != -9})
                 if bad:
                     m = driver.run_lines([predict_line(scn, bad[0])])[0]
                     what += "; model with failCode=%d admits: %s" % (bad[0], m)
         else:
-            what = "W=%d requests=%s faults=%s: after %s only %d of %d workers have an exit code (%s)" % (
+            what = "W=%d requests=%s faults=%s: stop() after the request %s: %s; %d of %d workers have an exit code (%s)" % (
                 scn["W"],
                 scn["requests"],
                 scn["faults"] or "none",
                 o.get("after"),
+                {"blocked": "still blocked when the bound expired", "raised": "raised %s" % o.get("exc"), "returned": "returned"}[
+                    o.get("outcome", "returned")
+                ],
                 o["exited"],
                 res["W"],
                 o.get("exitcodes"),
@@ -255,8 +295,9 @@ def tie(ctx):
     for s in scns:
         _submit(s)
     preds = driver.run_lines([predict_line(s) for s in scns])
+    fine = driver.run_lines([predict_line(s, op="predict-stop") for s in scns])
     divs = []
-    for s, pred in zip(scns, preds):
+    for s, pred, fpred in zip(scns, preds, fine):
         res = observe(s)
         if not pred.startswith("ok "):
             raise driver.DriverError("predict answered %r for %s" % (pred, canon(s)))
@@ -279,11 +320,20 @@ def tie(ctx):
             ctx.nontrivial(canon(s) + "|" + seq)
         if scns.index(s) % 4 == 1:
             ctx.sample({"scenario": canon(s), "observed": seq, "model_admits": admitted})
+        if res.get("api", "play_many") == "play_many" and "raises" in seq:
+            ctx.count("stop-after-raise:" + ("as-modelled" if observed_seq(res, True) in fpred[3:].split("|") else "other-loud-way"))
         if seq not in admitted:
             divs.append(Divergence("corr.pool", s, seq, pred[3:]))
         st = res.get("stop")
-        if st is not None and st["exited"] != res["W"]:
-            divs.append(Divergence("corr.pool.stop", s, "exited %d/%d" % (st["exited"], res["W"]), "all workers exit (C18_stop_joins)"))
+        if st is not None and (st["exited"] != res["W"] or st.get("outcome") == "blocked"):
+            divs.append(
+                Divergence(
+                    "corr.pool.stop",
+                    s,
+                    "stop %s, exited %d/%d" % (st.get("outcome"), st["exited"], res["W"]),
+                    "stop() comes back and all workers exit (C18_stop_joins, C18_stop_after_raise)",
+                )
+            )
     raise_ms = [o["ms"] for _, r in _OBS.values() for o in r["requests"] if o["outcome"] == "raised"]
     ctx.extra["pool"] = {
         "scenarios": len(scns),
@@ -312,7 +362,7 @@ def search(ctx, divergences, broken):
 def replay(ctx, data):
     r = data.get("replay", data)
     scn = r.get("scenario", r)
-    scn = {"W": scn["W"], "requests": scn["requests"], "faults": scn.get("faults", []), **({"slow": scn["slow"]} if scn.get("slow") else {})}
+    scn = json.loads(canon(scn))
     if not _FUT and "--replay" not in sys.argv:
         # first corpus replay of a run: start the whole tie workload now, so it overlaps with the corpus
         try:
